@@ -187,6 +187,11 @@ pub struct Written { pub bytes: Vec<u8>, pub startxrefs: Vec<usize>, pub contain
 
 /// write revisions[0] as the base file and each later revision as an appended update
 pub fn write_file(r: &mut Rng, c: &mut Counters, style: &Style, version: &str, revisions: &[Revision]) -> Written {
+    write_file_with(r, c, style, version, revisions, &|_| true)
+}
+
+/// `objstm_in(ri)`: whether revision `ri` may use object streams (when the style has them)
+pub fn write_file_with(r: &mut Rng, c: &mut Counters, style: &Style, version: &str, revisions: &[Revision], objstm_in: &dyn Fn(usize) -> bool) -> Written {
     let mut out: Vec<u8> = vec![];
     if style.junk_before_header { out.extend_from_slice(*r.pick(&[&b"\xef\xbb\xbf"[..], b"junk line\n", b"\n\n", b"%!PS-Adobe\n"])); hit(c, "file.junk_before_header"); }
     // offsets are relative to the start of the header (bytes before it do not count)
@@ -208,7 +213,7 @@ pub fn write_file(r: &mut Rng, c: &mut Counters, style: &Style, version: &str, r
         if style.lexical_freedom { r.shuffle(&mut ids); hit(c, "file.object_order_shuffled"); }
         // choose members of object streams
         let mut in_stm: Vec<(u32, u16)> = vec![];
-        if style.objstm && style.xref == XrefStyle::Stream {
+        if style.objstm && style.xref == XrefStyle::Stream && objstm_in(ri) {
             for id in &ids { let a = &rev.objects[id]; if id.1 == 0 && a.stream.is_none() && r.chance(2, 3) { in_stm.push(*id); } }
         }
         let mut pending_lengths: Vec<(u32, i64)> = vec![];
